@@ -48,6 +48,61 @@ fn expected(v: &Value) -> String {
     vx::show(&norm(v))
 }
 
+/// the SHAPE of the lexical members the specification fixes: `YYYY-MM-DD`, `hh:mm:ss[.f+]`, RFC 3339 with `Z` or
+/// `±hh:mm` (the reference reader hands these texts to chrono, which is more lenient than the specification)
+fn lexical_shapes(j: &jtok::J, out: &mut CaseOut) {
+    fn digits(s: &str, n: usize) -> bool {
+        s.len() == n && s.bytes().all(|b| b.is_ascii_digit())
+    }
+    fn date_ok(s: &str) -> bool {
+        let p: Vec<&str> = s.split('-').collect();
+        p.len() == 3 && digits(p[0], 4) && digits(p[1], 2) && digits(p[2], 2)
+    }
+    fn time_ok(s: &str) -> bool {
+        let (hms, frac) = match s.split_once('.') {
+            Some((a, b)) => (a, Some(b)),
+            None => (s, None),
+        };
+        let p: Vec<&str> = hms.split(':').collect();
+        p.len() == 3 && p.iter().all(|x| digits(x, 2)) && frac.map_or(true, |f| !f.is_empty() && f.bytes().all(|b| b.is_ascii_digit()))
+    }
+    fn stamp_ok(s: &str) -> bool {
+        let Some((d, rest)) = s.split_once('T') else { return false };
+        if !date_ok(d) {
+            return false;
+        }
+        if let Some(t) = rest.strip_suffix('Z') {
+            return time_ok(t);
+        }
+        if rest.len() < 6 {
+            return false;
+        }
+        let (t, off) = rest.split_at(rest.len() - 6);
+        let ob = off.as_bytes();
+        time_ok(t) && (ob[0] == b'+' || ob[0] == b'-') && digits(&off[1..3], 2) && ob[3] == b':' && digits(&off[4..6], 2)
+    }
+    match j {
+        jtok::J::Arr(a) => a.iter().for_each(|x| lexical_shapes(x, out)),
+        jtok::J::Obj(m) => {
+            let kind = m.iter().find(|(k, _)| k == "_kind").and_then(|(_, v)| if let jtok::J::Str(s) = v { Some(s.as_str()) } else { None });
+            let val = m.iter().find(|(k, _)| k == "val").and_then(|(_, v)| if let jtok::J::Str(s) = v { Some(s.as_str()) } else { None });
+            if let (Some(k), Some(v)) = (kind, val) {
+                let ok = match k {
+                    "date" => date_ok(v),
+                    "time" => time_ok(v),
+                    "dateTime" => stamp_ok(v),
+                    _ => true,
+                };
+                if !ok {
+                    out.fail("write_not_hayson", format!("the encoder writes the {k} as {v:?}: not the form the specification prescribes"));
+                }
+            }
+            m.iter().for_each(|(_, x)| lexical_shapes(x, out));
+        }
+        _ => {}
+    }
+}
+
 pub fn exec(label: &str, input: &str, out: &mut CaseOut) {
     let (mode, rest) = input.split_once(' ').unwrap_or((input, ""));
     // `hist:` cases: the same exchange AFTER a history of rejected documents on this thread
@@ -64,7 +119,10 @@ pub fn exec(label: &str, input: &str, out: &mut CaseOut) {
             out.stat(&format!("w:{}", crate::c01::kind_name(&v)));
             match serde_json::to_string(&v) {
                 Ok(t) => match jtok::parse(&t) {
-                    Some(j) => out.req(format!("C05 read {}", jtok::show_request(&j)), format!("ok {}", expected(&v))),
+                    Some(j) => {
+                        lexical_shapes(&j, out);
+                        out.req(format!("C05 read {}", jtok::show_request(&j)), format!("ok {}", expected(&v)))
+                    }
                     None => out.fail("not_json", format!("the encoder's output is not JSON: {t}")),
                 },
                 Err(e) => out.fail("enc_err", format!("serde_json::to_string failed on a well-formed value: {e}")),
